@@ -458,6 +458,29 @@ class PathCtx:
         finally:
             cls[2] += time.time() - t0
 
+    def check_close(self, name, lhs, rhs, case=None, known=(), tol=1e-9):
+        """Equality obligation in two stages (DESIGN 3/1a): exact equality first; if that is
+        refutable only because concrete float scalars were rounded by the interpreter, the
+        tolerance form |lhs-rhs| <= tol*(1+|rhs|) is decided instead.  Only a violation of
+        the tolerance form is a candidate counterexample."""
+        le, re = sym.lift(lhs), sym.lift(rhs)
+        eq = z3.simplify(le == re)
+        if z3.is_true(eq):
+            return self.check(name, True, case, known)
+        st = "unknown"
+        if self.ex.cfg.incremental_first:
+            st, _ = self._inc_check(z3.Not(eq))
+        if st == "unknown":
+            st, _ = self._fresh_check([z3.Not(eq)], self.ex.cfg.query_timeout_ms)
+        if st == "unsat":
+            return self.check(name, True, case, known)
+        d = le - re
+        ar = z3.If(re >= 0, re, -re)
+        t = sym.rv(tol) * (1 + ar)
+        self.rep.extra["tolerance_stage_obligations"] = self.rep.extra.get(
+            "tolerance_stage_obligations", 0) + 1
+        return self.check(name, z3.And(d <= t, -d <= t), case, known)
+
     def _sample_cex(self, name, claim, excl, case, tries=400):
         import random
 
@@ -528,14 +551,17 @@ class PathCtx:
             self.rep.extra["clean_replays_done"] = 1
         return True, {"replay_file": path, "detail": detail}
 
-    def reach(self, name="end"):
+    def reach(self, name="end", required=True):
         """Vacuity twin: the path condition with all assumptions must be satisfiable."""
         st, m = self._inc_check()
         if st == "unknown":
             st, m = self._fresh_check([], self.ex.cfg.query_timeout_ms)
         if st == "sat":
-            self.rep.reach_ok += 1
+            if required:
+                self.rep.reach_ok += 1
             return m
+        if not required:
+            return None
         if st == "unsat":
             self.rep.reach_fail.append(f"{self.label}:path{self.idx}:{name}")
         else:
